@@ -53,7 +53,7 @@ Fixpoint prow_branches (cols : prow) (nf k : nat) : list branch :=
 (* the block of a row: what prog_row puts in the event block *)
 Definition row_block (bk : backend) (r : row) (n : nat) : block :=
   let nf := n + row_size r in
-  let '(ds, ss) := trow (b_idiom bk) r nf 0 n in
+  let '(ds, ss) := trow (b_idiom bk) r nf 0 (nt_first nf r) n in
   Blk ds (app_stmts ss (app_stmts (trow_sets (b_idiom bk) r nf 0 n)
                                    (SCons (SFill (b_fill bk)) (trow_clears r nf 0)))).
 Definition row_branches (r : row) (nf : nat) : list branch :=
